@@ -270,6 +270,10 @@ func (matrix *DenseReal32Matrix) T() Matrix {
   return matrix.MagicT()
 }
 func (matrix *DenseReal32Matrix) Tip() {
+  if matrix.rows != matrix.rowMax || matrix.cols != matrix.colMax {
+    // the cycles of an in-place transposition run over the whole storage
+    panic("Tip(): in-place transposition of a matrix view is not supported")
+  }
   mn := len(matrix.values)
   visited := make([]bool, mn)
   k := 0
